@@ -34,6 +34,15 @@ type FeedSpec struct {
 	Ckpt     string `json:"ckpt,omitempty"`
 	Dump     bool   `json:"dump,omitempty"`
 	Stable   bool   `json:"stable,omitempty"` // lives for the whole run: gets the full C08 comparison
+	Run      int    `json:"run,omitempty"`    // n-th run of a checkpointed feed with this ID
+}
+
+// LogKey names the log of one run of a feed (a checkpointed feed is run several times under one ID).
+func (fs FeedSpec) LogKey() string {
+	if fs.Run == 0 {
+		return fs.ID
+	}
+	return fmt.Sprintf("%s#%d", fs.ID, fs.Run)
 }
 
 type HistEntry struct {
@@ -76,6 +85,9 @@ type e2 struct {
 	logOn         bool
 	maxCas        uint64
 	closedHandles map[int]bool
+	deleted       bool // CloseAndDelete was called by a client
+	dropped       map[int]bool
+	probeCas      map[int]uint64 // collection -> CAS of the probe write made after the run
 }
 
 func (e *e2) logf(format string, args ...any) {
@@ -272,13 +284,21 @@ func (e *e2) run() {
 	}
 	synctest.Wait()
 	e.teardownOracles()
+	deleted := e.deleted
 	for hi, h := range w.Handles {
-		if !e.closedHandles[hi] {
+		if !e.closedHandles[hi] && !deleted {
 			_ = h.CloseAndDelete(context.Background())
-			break
+			deleted = true
+		}
+	}
+	if !deleted {
+		// every handle was closed: an in-memory store lives on until it is deleted
+		if b, err := rosmar.OpenBucket(w.URL, w.Name, rosmar.CreateOrOpen); err == nil {
+			_ = b.CloseAndDelete(context.Background())
 		}
 	}
 	synctest.Wait()
+	e.afterShutdown()
 	if n := rosmar.VerifActiveFeeds(); n != 0 && e.res.Violation == nil {
 		e.violate([]string{"C16", "C20"}, "leak.feed", "%d feed goroutine(s) still running after every feed was stopped and the bucket deleted", n)
 	}
@@ -332,9 +352,9 @@ func (e *e2) startFeed(fs FeedSpec) (*FeedLog, error) {
 		return nil, err
 	}
 	e.mu.Lock()
-	e.feeds[fs.ID] = f
-	e.feedSpec[fs.ID] = fs
-	e.feedOrder = append(e.feedOrder, fs.ID)
+	e.feeds[fs.LogKey()] = f
+	e.feedSpec[fs.LogKey()] = fs
+	e.feedOrder = append(e.feedOrder, fs.LogKey())
 	e.mu.Unlock()
 	return f, nil
 }
@@ -501,6 +521,14 @@ func (e *e2) judge() {
 	e.judgeCasRace(hist)
 	e.judgeSubdocLost(hist)
 	e.judgeFeeds(hist)
+	switch e.p.Scenario {
+	case "backfill-race":
+		e.judgeBackfillRace(hist)
+	case "ckpt":
+		e.judgeCheckpoint(hist)
+	case "term":
+		e.judgeTermination(hist)
+	}
 }
 
 // C04: CAS values are unique and increase in commit order.
